@@ -395,23 +395,29 @@ def doTrafficRoutingX (ops : StratOps S) (P : Option (Provider S G)) (c : XCtx S
 
 /-! ## a stable Service without `spec.selector` -/
 
-/-- **guard `selectorlessStable`** — the stable Service carries no selector at all (`bare`; legal for the API
-    server: a Service with manually managed Endpoints, an ExternalName Service) and this call of
-    `DoTrafficRouting` gets as far as creating the canary Service (a ref, something to route, both `Get`s
-    answered, stable Service found and not pinned, no grace period running, a canary Service is generated, the
-    revisions are known, no canary Service yet): `createCanaryService` copies the stable spec and assigns the
-    revision label into the nil selector map — `panic: assignment to entry in nil map` — before anything is
-    written.  (A stable Service whose only selector entry is the revision label is not nil: no panic.) -/
-def panicsBare (ops : StratOps S) (c : XCtx S) (a : Api) (n : XNet G) (bare : Bool) : Bool :=
+/-- the stable Service carries no selector at all (`bare`; legal for the API server: a Service with manually
+    managed Endpoints, an ExternalName Service) and this call of `DoTrafficRouting` gets as far as creating the
+    canary Service (a ref, something to route, both `Get`s answered, stable Service found and not pinned, no grace
+    period running, a canary Service is generated, the revisions are known, no canary Service yet):
+    `createCanaryService` finds `spec.Selector == nil` and **returns an error** before anything is written
+    (`stable service of canary service(%s) has no selector, cannot generate the canary service`) — a Service
+    without selector cannot be narrowed to a revision.  (A stable Service whose only selector entry is the
+    revision label is not nil: the canary Service is created from it.)
+    Before the repair (rollouts commit FIXCOMMIT-selectorless) the function assigned the revision label into the
+    nil map: `panic: assignment to entry in nil map` (fixed finding `selectorlessStable`). -/
+def refusesBare (ops : StratOps S) (c : XCtx S) (a : Api) (n : XNet G) (bare : Bool) : Bool :=
   bare && c.hasRef && !(ops.noTraffic c.strategy && ops.noMatches c.strategy) &&
   !a.read.1 && n.stableExists && !(c.lastUpdate == .fresh && decide (c.doGrace > 0)) &&
   !c.noGen && c.stableRev != "" && c.canaryRev != "" && !a.read.2.read.1 &&
   n.canarySvc.isNone && n.stableSel.isNone
 
-/-- `Manager.DoTrafficRouting` over a stable Service that may be selector-less (`bare`): what the code does -/
+/-- `Manager.DoTrafficRouting` over a stable Service that may be selector-less (`bare`).  The selector as a whole
+    (rather than its revision entry) is read in one place only, `createCanaryService`; there the call returns
+    `false, err` after its two `Get`s (stable Service: found; canary Service: NotFound), with nothing written,
+    `LastUpdateTime` and the expectations untouched. -/
 def doTrafficRoutingB (ops : StratOps S) (P : Option (Provider S G)) (c : XCtx S) (a : Api) (n : XNet G) (m : Mem)
     (bare : Bool) : XOut G :=
-  if panicsBare ops c a n bare then .panicked n m a else doTrafficRoutingX ops P c a n m
+  if refusesBare ops c a n bare then .same false true n m a.read.2.read.2 else doTrafficRoutingX ops P c a n m
 
 /-- `Manager.InitializeTrafficRouting`: `true` = an error is returned (no API faults modelled) -/
 def initializeX (P : Option (Provider S G)) (c : XCtx S) (n : XNet G) : Bool :=
@@ -685,9 +691,20 @@ def providerList (p : PCfg) : List (Provider Strat CNet) :=
     | _ => []) ++
   (if p.gateway then [onSnd (onSnd (gwProvider ⟨p.stable, p.canary⟩))] else [])
 
-/-- `newNetworkProvider`: `none` = an error is returned -/
+/-- `gateway.NewGatewayTrafficRouting` returns an error: the canary Service name equals the stable Service name.
+    The route builders tell the canary backendRef from the stable one by the Service name; without a canary
+    Service of its own (`DisableGenerateCanaryService`, `OnlyTrafficRouting`: `getCanaryServiceName` = the stable
+    name) the user's own backendRef would be taken for the canary ref — rewritten by a weight step, dropped by
+    `Finalise` (fixed finding `sameServiceGateway`, rollouts commit FIXCOMMIT-sameService). -/
+def gatewayRefused (p : PCfg) : Bool := p.gateway && RV.Gateway.Conf.refused ⟨p.stable, p.canary⟩
+
+/-- `newNetworkProvider`: `none` = an error is returned (a constructor failed — the Ingress class has no Lua
+    script, the Gateway provider is handed the same Service name twice — or no provider is configured).  The
+    constructors neither read (ConfigMaps aside) nor write: a Manager call whose provider cannot be built returns
+    the error with the provider's objects untouched (`restoreGatewayX`, `routeAllToNewX`, `routeStepX`, `initializeX`). -/
 def mkProvider (p : PCfg) : Option (Provider Strat CNet) :=
   if p.ingress = some none then none
+  else if gatewayRefused p then none
   else
     match providerList p with
     | [] => none
